@@ -1,9 +1,9 @@
 """C17 - bridges to slices, maps and channels are exact and close exactly once (DESIGN 6/C17)."""
-import vlib, parts_pipeline as pp, parts_detach, common
+import vlib, tracecheck, parts_pipeline as pp, parts_detach, common
 
 PID = 'C17'
 # for the bridge chains every deviation of values / terminal is a C17 matter
-BRIDGE_PROPS = {'resub-values': ['C17'], 'resub-closed': ['C17'], 'resub-grammar': ['C17'], 'resub-late': ['C17'], 'values': ['C17'], 'timing': ['C17'], 'grammar': ['C17'], 'late': ['C17'], 'closed': ['C17'], 'panic': ['C17'], 'hang': ['C17']}
+BRIDGE_PROPS = {'ctx-nil': ['C17', 'C09'], 'resub-ctx-nil': ['C17', 'C09'], 'resub-values': ['C17'], 'resub-closed': ['C17'], 'resub-grammar': ['C17'], 'resub-late': ['C17'], 'values': ['C17'], 'timing': ['C17'], 'grammar': ['C17'], 'late': ['C17'], 'closed': ['C17'], 'panic': ['C17'], 'hang': ['C17']}
 
 
 def main(argv):
@@ -14,6 +14,8 @@ def main(argv):
     # the same bridge pipeline subscribed a second time starts from an empty slice / map (MaxSubs = 2); a source that ends with Error(nil)
     pp.run(rep, PID, [pp.gen_cfg('bridges-resub', ChainSetName='"bridges"', MaxSteps=5 if th else 4, MaxSubs=2)], modes='ctl-unsafe', class_props=BRIDGE_PROPS)
     pp.run(rep, PID, [pp.gen_cfg('bridges-nil-error', ChainSetName='"bridges"', MaxSteps=4 if th else 3, NilErr='TRUE')], modes='ctl-unsafe,sync', class_props=BRIDGE_PROPS)
+    # Collect is the bridge to a slice: exactly the values delivered, with the error, never before the terminal callback has run (CollectTrace.tla)
+    tracecheck.run(rep, PID, 'drive-collect', 'CollectTrace', 'CollectTrace_x.cfg', 1500 if th else 500, [rep.seed * 100 + 90 + i for i in range(3 if th else 1)], 'collect')
     parts_detach.model_part(rep)
     parts_detach.trace_part(rep, PID, 800 if th else 400, [rep.seed * 100 + i for i in range(6 if th else 1)])
     rep.cov['rule'] = ('(a) TLC enumerates Pipeline.tla behaviours for ToSlice, ToMap (4 flavours), Materialize, Materialize|Dematerialize and op|Materialize|Dematerialize (identity on any stream, '
@@ -26,6 +28,8 @@ def main(argv):
 
 def replay(path):
     vlib.build_harness()
+    if path.endswith('.ndjson') and 'drive-collect' in path:
+        return tracecheck.replay(PID, 'CollectTrace', 'CollectTrace_x.cfg', path)
     if path.endswith('.ndjson'):
         return parts_detach.replay_trace(PID, path)
     return pp.replay_case(PID, path, class_props=BRIDGE_PROPS)
